@@ -53,10 +53,12 @@ SYN_CASE = {
 SIM_CASE = {'traj': {'simulated': 0}, 'pm': {'sample': True}, 'fuel': {'sample': True}}
 # the same synthetic flight with no cruise points at all (climb straight into descent): in lto mode its whole
 # trajectory lies outside the counted window
-NOCRZ_CASE = {**SYN_CASE, 'traj': {**SYN_CASE['traj'], 'n_climb': 5, 'n_cruise': 0, 'n_descent': 4}}
+# (aircraft classes differ between the fixed inputs: wide, small, freight, and whatever the sample model says)
+NOCRZ_CASE = {**SYN_CASE, 'traj': {**SYN_CASE['traj'], 'n_climb': 5, 'n_cruise': 0, 'n_descent': 4},
+              'pm': {**SYN_CASE['pm'], 'aircraft_class': 'small'}}
 # the synthetic flight on an aircraft whose performance model names no APU (documented as legal): apu_enabled then has
 # nothing to add, whatever its value
-NOAPU_CASE = {**SYN_CASE, 'pm': {**SYN_CASE['pm'], 'apu': None}}
+NOAPU_CASE = {**SYN_CASE, 'pm': {**SYN_CASE['pm'], 'apu': None, 'aircraft_class': 'freight'}}
 TRAJS = ['sim', 'syn', 'nocrz', 'noapu']
 CASES = {'sim': SIM_CASE, 'syn': SYN_CASE, 'nocrz': NOCRZ_CASE, 'noapu': NOAPU_CASE}
 
